@@ -20,6 +20,6 @@ open TxVerif
 #print axioms commit_keeps_live_meta
 #print axioms commit_ends_bounded
 #print axioms absorb_meta_below_end
-#print axioms absorb_meta_below_end'
+#print axioms absorb_meta_below_end_grown
 #print axioms absorb_end_fresh
 #print axioms absorb_alloc_fresh
